@@ -977,7 +977,7 @@ func c16PullDispose(c *fw.Ctx, i int) {
 	root := filepath.Join(c.Scratch, fmt.Sprintf("c16pd-%d", i))
 	os.MkdirAll(root, 0755)
 	defer os.RemoveAll(root)
-	inFlight := (i/10)%2 == 1
+	inFlight := (i/2)%2 == 1
 	hold := make(chan struct{})
 	msgs := gen.Build(c.SubRng("origin"), 9, gen.Shape{Name: "pd", Video: true, Audio: true, Gops: 200, GopLen: 5, AudioPerVid: 1, Sizes: []int{100, 300}})
 	var pm []ref.RtmpMsg
@@ -1475,26 +1475,32 @@ func init() {
 		ID: "C16",
 		NumCases: func(tier string, seed int64) int {
 			if tier == "thorough" {
-				return 600
+				return 640
 			}
-			return 40
+			return 48
 		},
 		Setup:       c16Setup,
 		CaseTimeout: func(string) time.Duration { return 4 * time.Minute },
-		Rule: "whole-server runs with HLS (disk), FLV and TS recorders, relay push to a stub target, the stream hook and RTMP/FLV/TS consumers. Finalise scenarios (3 of 5 cases with an RTMP publisher; 1 of 5 with an RTSP publisher over interleaved TCP or UDP ended by close / kick / silence / TEARDOWN, outputs checked structurally): 3–5 incarnations of one stream name with changing codec pairs (AVC/HEVC/enhanced HEVC/none × AAC/none); each incarnation is cut at a seeded instant (nothing sent, headers only, right after a key frame, after an audio frame with batched audio pending, mid-stream, complete) by close / API kick / going silent (check interval 2 s; in half of these after having trickled its last messages over 4.8 s, i.e. after being found alive by at least two checks) / server Dispose. Observed right after each end: stream-hook OnStop calls = 1 and OnMsg calls = messages published; push target connection closed; exactly one FLV and one TS recording, FLV parses to EOF and equals the published audio/video messages, TS passes the C06 frame oracle to the last video and audio frame (flush); live and record playlists parse, one ENDLIST, every segment file listed and present, segments pass the frame oracle to the last frame; idle publisher gets pub_stop ≤ 2·interval+3 s+2 s and its socket closes; joiners of an incarnation see only its tags; players that join while the name has no input see only the next incarnation's tags and do receive its frames; long-lived consumers never see an older incarnation after a newer one, and the long-lived HTTP-TS consumer sees each incarnation's frames under a PMT that declares that incarnation's codecs; stat codec fields equal the current input's; the group leaves /api/stat/all_group ≤ 8 s after the last session. Re-publish scenarios (1 of 10): cleanup_mode 1/2 with a 1.5 s delayed directory cleanup, a second publisher of the name arriving at once and staying live across the first one's cleanup timer — live playlist and listed segments must be on disk while it is live and finalised when it ends, directory removed after the last end. Late-push scenarios (1 of 10): the push target withholds its answer to `publish` until the publisher has left by close or kick (and, alternately, answers in time) — its connection must be closed within 4 s either way. Pull-dispose scenarios (1 of 10): the input is a relay pull (attached, or its attempt held in flight by the origin) and the server is shut down — the origin connection must be closed within 4 s. Resource scenarios (1 of 5): 3 warm-up cycles, baseline goroutines and /proc/self/fd with no session left, 6 (thorough 12) cycles with RTMP/FLV/TS/RTSP-TCP/RTSP-UDP consumers, abandoned RTSP DESCRIBE/SETUP, aborted RTMP handshakes, HLS and API requests, ends by close/kick/consumers-first; growth ≥ 1 per 2 cycles is a leak. cell = end way × end instant × codec pair.",
+		Rule: "whole-server runs with HLS (disk), FLV and TS recorders, relay push to a stub target, the stream hook and RTMP/FLV/TS consumers. Finalise scenarios (3 of 5 cases with an RTMP publisher; 1 of 5 with an RTSP publisher over interleaved TCP or UDP ended by close / kick / silence / TEARDOWN, outputs checked structurally): 3–5 incarnations of one stream name with changing codec pairs (AVC/HEVC/enhanced HEVC/none × AAC/none); each incarnation is cut at a seeded instant (nothing sent, headers only, right after a key frame, after an audio frame with batched audio pending, mid-stream, complete) by close / API kick / going silent (check interval 2 s; in half of these after having trickled its last messages over 4.8 s, i.e. after being found alive by at least two checks) / server Dispose. Observed right after each end: stream-hook OnStop calls = 1 and OnMsg calls = messages published; push target connection closed; exactly one FLV and one TS recording, FLV parses to EOF and equals the published audio/video messages, TS passes the C06 frame oracle to the last video and audio frame (flush); live and record playlists parse, one ENDLIST, every segment file listed and present, segments pass the frame oracle to the last frame; idle publisher gets pub_stop ≤ 2·interval+3 s+2 s and its socket closes; joiners of an incarnation see only its tags; players that join while the name has no input see only the next incarnation's tags and do receive its frames; long-lived consumers never see an older incarnation after a newer one, and the long-lived HTTP-TS consumer sees each incarnation's frames under a PMT that declares that incarnation's codecs; stat codec fields equal the current input's; the group leaves /api/stat/all_group ≤ 8 s after the last session. Re-publish scenarios (1 of 10): cleanup_mode 1/2 with a 1.5 s delayed directory cleanup, a second publisher of the name arriving at once and staying live across the first one's cleanup timer — live playlist and listed segments must be on disk while it is live and finalised when it ends, directory removed after the last end. Late-push scenarios (4 extra cases, thorough 20): the push target withholds its answer to `publish` until the publisher has left by close or kick (and, alternately, answers in time) — its connection must be closed within 4 s either way. Pull-dispose scenarios (4 extra cases, thorough 20): the input is a relay pull (attached, or its attempt held in flight by the origin) and the server is shut down — the origin connection must be closed within 4 s. Resource scenarios (1 of 5): 3 warm-up cycles, baseline goroutines and /proc/self/fd with no session left, 6 (thorough 12) cycles with RTMP/FLV/TS/RTSP-TCP/RTSP-UDP consumers, abandoned RTSP DESCRIBE/SETUP, aborted RTMP handshakes, HLS and API requests, ends by close/kick/consumers-first; growth ≥ 1 per 2 cycles is a leak. cell = end way × end instant × codec pair.",
 		Assumptions: []string{"recording and HLS files of one incarnation are inspected and then removed by the harness before the next incarnation starts (lal names recordings by second, so back-to-back incarnations would otherwise share a file name)", "goroutine and descriptor counts include the harness's own; every harness connection is closed before counting and only growth proportional to the number of cycles is judged"},
 		MinCells: 10,
 		Run: func(c *fw.Ctx, i int) {
+			if base := map[bool]int{true: 600, false: 40}[c.Tier == "thorough"]; i >= base {
+				// the two scenarios added later have case indices of their own
+				if (i-base)%2 == 0 {
+					c16LatePush(c, i)
+				} else {
+					c16PullDispose(c, i)
+				}
+				return
+			}
 			if i%5 == 4 {
 				c16Resources(c, i)
 			} else if i%5 == 3 {
 				c16FinaliseRtsp(c, i)
 			} else if i%10 == 7 {
 				c16Republish(c, i)
-			} else if i%10 == 2 {
-				c16LatePush(c, i)
-			} else if i%10 == 6 {
-				c16PullDispose(c, i)
+
 			} else {
 				c16Finalise(c, i)
 			}
